@@ -155,13 +155,22 @@ func (sc styleCase) accepted(hp string, i int) (primary string, also []string) {
 	return primary, also
 }
 
+// normURL is the level at which request URLs are compared: the library's own API identifies a
+// path by its decoded form (a client that re-spells an escape without changing the decoded path
+// is not a finding); queries are compared after RFC 3986 section 6.2.2 normalisation.
 func normURL(s string) string {
 	sch, auth, p, q, has := splitURL(s)
-	out := sch + "://" + auth + normURLPart(p)
+	out := sch + "://" + auth + pctDecode(p)
 	if has {
 		out += "?" + normURLPart(q)
 	}
 	return out
+}
+
+// spelling is RFC 3986 normalisation of path and query (escaped reserved characters stay escaped).
+func spelling(s string) string {
+	sch, auth, p, q, has := splitURL(s)
+	return sch + "://" + auth + withQ(normURLPart(p), normURLPart(q), has)
 }
 
 func (sc styleCase) sdp(hp string) []byte {
@@ -264,8 +273,10 @@ func runStyle(sc styleCase, r *rand.Rand) ([]finding, caseStats) {
 	}
 	us += hp + withQ(sc.Path, sc.Query, sc.HasQ)
 	suffix := ""
-	if atBeforeEscape(us) || atBeforeEscape(sc.baseString(hp)) {
-		suffix = "/at-sign-before-escape"
+	inClass := atSignClass(us, sc.baseString(hp))
+	for i := range sc.Controls {
+		p, also := sc.accepted(hp, i)
+		inClass = inClass || atSignClass(append(also, p)...)
 	}
 	u, err := base.ParseURL(us)
 	if err != nil {
@@ -316,6 +327,9 @@ func runStyle(sc styleCase, r *rand.Rand) ([]finding, caseStats) {
 		switch {
 		case got == normURL(primary):
 			run.Count("control-style-resolution:append-to-base", 1)
+			if spelling(p[1]) != spelling(primary) {
+				run.Count("control-style:escapes-respelled-same-decoded-path", 1)
+			}
 		case len(also) > 0 && got == normURL(also[0]):
 			run.Count("control-style-resolution:alternative("+sc.Ctl+")", 1)
 		default:
@@ -327,7 +341,7 @@ func runStyle(sc styleCase, r *rand.Rand) ([]finding, caseStats) {
 			run.Count("control-style:rfc1808-strict-differs-from-append("+sc.Ctl+"+"+sc.Base+")", 1)
 		}
 	}
-	return fs, st
+	return renameAtSign(fs, "control-style", inClass), st
 }
 
 // ---- part 2b: Media.URL(base) fed into a real ServerSession resolves back (server's own style) ----
@@ -358,9 +372,6 @@ func (w *worker) runInverse(ic inverseCase, r *rand.Rand) ([]finding, caseStats)
 	co := w.register(c.Medias)
 	defer w.unregister(co)
 	cls := "other"
-	if atBeforeEscape(c.build(1)) {
-		cls = "at-sign-before-escape"
-	}
 
 	p, err := rig.Dial(hostPort(c.Auth, w.ts.Port), nil, "")
 	if err != nil {
@@ -387,7 +398,7 @@ func (w *worker) runInverse(ic inverseCase, r *rand.Rand) ([]finding, caseStats)
 	finish := func() ([]finding, caseStats) {
 		hs, _ := co.snapshot()
 		c.compare(hs, &st, add)
-		return fs, st
+		return renameAtSign(fs, "inverse", atSignClass(c.build(1))), st
 	}
 
 	// the URL without credentials, spelled as given
@@ -437,7 +448,7 @@ func (w *worker) runInverse(ic inverseCase, r *rand.Rand) ([]finding, caseStats)
 	}
 	// one packet to every media, the chosen one last: only that one may arrive on channel 0
 	runID := uint32(r.Int31())
-	stream, sdesc := w.streams[c.Medias], w.descs[c.Medias]
+	stream, sdesc := co.stream, co.desc
 	order := []int{}
 	for i := 0; i < c.Medias; i++ {
 		if i != ic.Media {
